@@ -19,8 +19,9 @@ ev    := `o:<conn>` open | `h:<conn>` control handshake, auth ok | `f:<conn>` co
          `q:<node>.<client>` FindClientNode starts on that node: its index read happens now | `r:<node>.<client>` it
          continues: record read and answer (flag ok = it answered a connection)
 conn  := `<node>.<client>.<serial>`
-obs   := one token per event: `<ok|er>|<x>=<ans>/<route>,…(one per node)…;<x>=…`   (ok = the entry point returned nil; for `d:`/`s:`: the call closed the connection)
+obs   := one token per event: `<ok|er>|<x>=<ans>/<route>/<state>,…(one per node)…;<x>=…`   (ok = the entry point returned nil; for `d:`/`s:`: the call closed the connection)
 ans   := `-` not connected | `inv` invalid client id | `bad` decode error | `<node>@<conn>`
+state := what the cloud runtime state (client.Service / ClientStateRepository.GetState) names: `-` | `<node>@<conn>`
 route := `L` local | `R<node>` forward | `N` not connected | `I` inconsistent | `X` the asking node was shut down (not asked)
 -/
 namespace Tunnox.Drv.C08
@@ -98,7 +99,7 @@ def parseCase (ts : List String) : Option Case :=
     pure ⟨shape, ttl, nn, clients, evs⟩
   | _ => none
 
-def paramsOf (c : Case) : Params := ⟨repaired, c.shape, effTTL c.ttl⟩
+def paramsOf (c : Case) : Params := ⟨repaired, c.shape, effTTL c.ttl, 90000⟩
 
 def renderLook : Look → String
   | .found n c => s!"{n}@{renderConn c}"
@@ -113,10 +114,14 @@ def renderRoute : Route → String
   | .incons => "I"
   | .down => "X"
 
-def renderView (v : List (Look × Route)) : String :=
-  ",".intercalate (v.map (fun p => renderLook p.1 ++ "/" ++ renderRoute p.2))
+def renderRS : Option (Nat × Conn) → String
+  | none => "-"
+  | some v => s!"{v.1}@{renderConn v.2}"
 
-def renderObs1 (o : List (Nat × List (Look × Route))) : String :=
+def renderView (v : List (Look × Route × Option (Nat × Conn))) : String :=
+  ",".intercalate (v.map (fun p => renderLook p.1 ++ "/" ++ renderRoute p.2.1 ++ "/" ++ renderRS p.2.2))
+
+def renderObs1 (o : List (Nat × List (Look × Route × Option (Nat × Conn)))) : String :=
   ";".intercalate (o.map (fun p => toString p.1 ++ "=" ++ renderView p.2))
 
 def renderObs (o : Obs) : String :=
@@ -141,20 +146,27 @@ def parseRoute (s : String) : Option Route :=
     | 'R' :: r => (String.ofList r).toNat?.map .cross
     | _ => none
 
-def parsePair (s : String) : Option (Look × Route) :=
+def parseRS (s : String) : Option (Option (Nat × Conn)) :=
+  if s == "-" then some none
+  else
+    match s.splitOn "@" with
+    | [n, c] => do let n ← n.toNat?; let c ← parseConn c; pure (some (n, c))
+    | _ => none
+
+def parsePair (s : String) : Option (Look × Route × Option (Nat × Conn)) :=
   match s.splitOn "/" with
-  | [a, r] => do let a ← parseLook a; let r ← parseRoute r; pure (a, r)
+  | [a, r, t] => do let a ← parseLook a; let r ← parseRoute r; let t ← parseRS t; pure (a, r, t)
   | _ => none
 
-def parseClientView (s : String) : Option (Nat × List (Look × Route)) :=
+def parseClientView (s : String) : Option (Nat × List (Look × Route × Option (Nat × Conn))) :=
   match s.splitOn "=" with
   | [x, v] => do let x ← x.toNat?; let v ← (v.splitOn ",").mapM parsePair; pure (x, v)
   | _ => none
 
-def parseObs1 (s : String) : Option (List (Nat × List (Look × Route))) :=
+def parseObs1 (s : String) : Option (List (Nat × List (Look × Route × Option (Nat × Conn)))) :=
   (s.splitOn ";").mapM parseClientView
 
-def parseObsTok (s : String) : Option (Bool × List (Nat × List (Look × Route))) :=
+def parseObsTok (s : String) : Option (Bool × List (Nat × List (Look × Route × Option (Nat × Conn)))) :=
   match s.splitOn "|" with
   | ["ok", r] => (parseObs1 r).map (fun o => (true, o))
   | ["er", r] => (parseObs1 r).map (fun o => (false, o))
